@@ -84,3 +84,223 @@ func lemmaPacketNumberEndToEnd(acked, recvLargest, pn packetNumber, pre []byte) 
 	truncated := beBytes(b, len(pre), n)
 	return decodePacketNumber(recvLargest, truncated, n) == pn
 }
+
+// ---------------------------------------------------------------------------
+// stream_limits.go (property C21)
+
+// remoteOK is the representation invariant of the peer-opened stream accounting:
+// streams opened so far are below the advertised limit, and the advertised limit never lets
+// the peer hold more than maxOpen streams that are not yet closed.
+//
+//@ pure
+func remoteOK(max, opened, closed, maxOpen int64) bool {
+	return 0 <= closed && closed <= opened && opened <= max && max <= closed+maxOpen &&
+		0 <= maxOpen && maxOpen <= 1<<60 && opened <= 1<<60
+}
+
+//@ func (*remoteStreamLimits).init(lim, maxOpen)
+//@   requires lim != nil && 0 <= maxOpen && maxOpen <= 1<<60 && lim.closed == 0
+//@   ensures  remoteOK(lim.max, lim.opened, lim.closed, lim.maxOpen) && lim.maxOpen == maxOpen
+//@   modifies lim.maxOpen, lim.max, lim.opened
+//@
+//@ func (*remoteStreamLimits).maybeUpdateMax(lim)
+//@   requires lim != nil && remoteOK(lim.max, lim.opened, lim.closed, lim.maxOpen)
+//@   ensures  remoteOK(lim.max, lim.opened, lim.closed, lim.maxOpen)
+//@   ensures  lim.max >= old(lim.max)
+//@   ensures  lim.opened == old(lim.opened) && lim.closed == old(lim.closed) && lim.maxOpen == old(lim.maxOpen)
+//@   modifies lim.max, lim.sendMax
+//@
+//@ func (*remoteStreamLimits).open(lim, id) (err)
+//@   requires lim != nil && remoteOK(lim.max, lim.opened, lim.closed, lim.maxOpen) && id < 1<<62
+//@   ensures  remoteOK(lim.max, lim.opened, lim.closed, lim.maxOpen)
+//@   ensures  err != nil <==> int64(id)>>2 >= old(lim.max)
+//@   ensures  err != nil ==> hastype(err, localTransportError) && err.(localTransportError).code == errStreamLimit
+//@   ensures  err != nil ==> lim.max == old(lim.max) && lim.opened == old(lim.opened)
+//@   ensures  err == nil ==> lim.opened == max(old(lim.opened), (int64(id)>>2)+1) && lim.max >= old(lim.max)
+//@   ensures  lim.closed == old(lim.closed) && lim.maxOpen == old(lim.maxOpen)
+//@   modifies lim.max, lim.opened, lim.sendMax
+//@
+//@ func (*remoteStreamLimits).close(lim)
+//@   requires lim != nil && remoteOK(lim.max, lim.opened, lim.closed, lim.maxOpen) && lim.closed < lim.opened
+//@   ensures  remoteOK(lim.max, lim.opened, lim.closed, lim.maxOpen)
+//@   ensures  lim.closed == old(lim.closed) + 1 && lim.max >= old(lim.max) && lim.opened == old(lim.opened)
+//@   modifies lim.closed, lim.max, lim.sendMax
+
+// Gate operations are channel based (property C29, not claimed); here they are no-ops whose
+// only checked aspect is the condition passed to unlock.
+//
+//@ func (*gate).lock(g)
+//@   trusted
+//@ func (*gate).unlock(g, set)
+//@   trusted
+//@
+//@ func (*localStreamLimits).unlock(lim)
+//@   requires lim != nil
+//@   assert at call unlock: $set == (lim.opened < lim.max)
+//@
+//@ func (*localStreamLimits).setMax(lim, maxStreams)
+//@   requires lim != nil
+//@   ensures  lim.max >= old(lim.max) && lim.max >= maxStreams && (lim.max == old(lim.max) || lim.max == maxStreams)
+//@   ensures  lim.opened == old(lim.opened)
+//@   modifies lim.max
+
+// ---------------------------------------------------------------------------
+// conn_flow.go (property C20)
+
+//@ func (*connOutflow).setMaxData(f, maxData)
+//@   requires f != nil
+//@   ensures  f.max >= old(f.max) && f.max >= maxData && (f.max == old(f.max) || f.max == maxData)
+//@   modifies f.max
+//@
+//@ func (*connOutflow).avail(f) (r)
+//@   requires f != nil
+//@   ensures  r == f.max - f.used
+//@
+//@ func (*connOutflow).consume(f, n)
+//@   requires f != nil && 0 <= f.used && f.used <= f.max && 0 <= n && n <= f.max - f.used
+//@   ensures  f.used == old(f.used) + n && 0 <= f.used && f.used <= f.max
+//@   modifies f.used
+//@
+//@ func (*Conn).handleStreamBytesReceived(c, n) (err)
+//@   requires c != nil && 0 <= n && n <= 1<<62 && 0 <= c.streams.inflow.usedLimit && c.streams.inflow.usedLimit <= 1<<62
+//@   ensures  c.streams.inflow.usedLimit == old(c.streams.inflow.usedLimit) + n
+//@   ensures  err != nil <==> c.streams.inflow.usedLimit > c.streams.inflow.sentLimit
+//@   ensures  err != nil ==> hastype(err, localTransportError) && err.(localTransportError).code == errFlowControl
+//@   modifies c.streams.inflow.usedLimit
+
+// ---------------------------------------------------------------------------
+// congestion_reno.go (property C26): the window never drops below the minimum window and
+// bytes in flight move by exactly the size of in-flight packets.
+
+//@ pure
+func renoOK(maxDatagramSize, congestionWindow int) bool {
+	return 0 <= maxDatagramSize && maxDatagramSize <= 1<<20 && congestionWindow >= 2*maxDatagramSize && congestionWindow <= 1<<50
+}
+
+//@ func (*ccReno).minimumCongestionWindow(c) (r)
+//@   requires c != nil
+//@   ensures  r == 2*c.maxDatagramSize
+//@
+//@ func (*ccReno).canSend(c) (ok)
+//@   requires c != nil
+//@   ensures  !c.sendOnePacketInRecovery ==> (ok <==> c.bytesInFlight + c.maxDatagramSize <= c.congestionWindow)
+//@
+//@ func (*ccReno).packetSent(c, now, log, space, sent)
+//@   requires c != nil && sent != nil
+//@   ensures  sent.inFlight ==> c.bytesInFlight == old(c.bytesInFlight) + sent.size
+//@   ensures  !sent.inFlight ==> c.bytesInFlight == old(c.bytesInFlight)
+//@   ensures  c.congestionWindow == old(c.congestionWindow) && c.maxDatagramSize == old(c.maxDatagramSize)
+//@   modifies c.bytesInFlight, c.sendOnePacketInRecovery
+//@
+//@ func (*ccReno).packetAcked(c, now, sent)
+//@   requires c != nil && sent != nil
+//@   ensures  sent.inFlight ==> c.bytesInFlight == old(c.bytesInFlight) - sent.size
+//@   ensures  !sent.inFlight ==> c.bytesInFlight == old(c.bytesInFlight)
+//@   ensures  c.congestionWindow == old(c.congestionWindow) && c.maxDatagramSize == old(c.maxDatagramSize)
+//@   modifies c.bytesInFlight, c.congestionPendingAcks
+//@
+//@ func (*ccReno).packetLost(c, now, space, sent, rtt)
+//@   requires c != nil && sent != nil && rtt != nil && 0 <= space && space < numberSpaceCount
+//@   ensures  sent.inFlight ==> c.bytesInFlight == old(c.bytesInFlight) - sent.size
+//@   ensures  !sent.inFlight ==> c.bytesInFlight == old(c.bytesInFlight)
+//@   ensures  c.congestionWindow == old(c.congestionWindow) && c.maxDatagramSize == old(c.maxDatagramSize)
+//@   modifies c.bytesInFlight, c.ackLastLoss, c.persistentCongestion
+//@
+//@ func (*ccReno).packetDiscarded(c, sent)
+//@   requires c != nil && sent != nil
+//@   ensures  sent.inFlight ==> c.bytesInFlight == old(c.bytesInFlight) - sent.size
+//@   ensures  !sent.inFlight ==> c.bytesInFlight == old(c.bytesInFlight)
+//@   ensures  c.congestionWindow == old(c.congestionWindow)
+//@   modifies c.bytesInFlight
+//@
+//@ func (*ccReno).packetBatchEnd(c, now, log, space, rtt, maxAckDelay)
+//@   abstract
+//@   requires c != nil && rtt != nil && 0 <= space && space < numberSpaceCount
+//@   requires renoOK(c.maxDatagramSize, c.congestionWindow)
+//@   requires 0 <= c.congestionPendingAcks && c.congestionPendingAcks <= 1<<50
+//@   ensures  renoOK(c.maxDatagramSize, c.congestionWindow) || c.congestionWindow > 1<<50
+//@   ensures  c.congestionWindow >= 2*c.maxDatagramSize
+//@   ensures  c.bytesInFlight == old(c.bytesInFlight) && c.maxDatagramSize == old(c.maxDatagramSize)
+//@   loop 1 invariant c.maxDatagramSize == old(c.maxDatagramSize) && c.bytesInFlight == old(c.bytesInFlight)
+//@   loop 1 invariant c.congestionWindow >= 2*c.maxDatagramSize && 0 <= c.maxDatagramSize && c.maxDatagramSize <= 1<<20
+//@   loop 1 invariant 0 <= c.congestionPendingAcks && c.congestionPendingAcks <= 1<<52 && 0 <= c.congestionWindow && c.congestionWindow <= 1<<52
+//@   loop 1 invariant c.congestionWindow + c.congestionPendingAcks <= 1<<52
+//@   noframe
+
+// ---------------------------------------------------------------------------
+// sent_packet_list.go (property C26): the ring buffer of sent packets behaves as a queue indexed
+// by packet number.
+
+// splOK is the representation invariant of the ring buffer.
+//
+//@ pure
+func splOK(s *sentPacketList) bool {
+	return 0 <= s.size && s.size <= len(s.p) && 0 <= s.off && (s.off < len(s.p) || (len(s.p) == 0 && s.off == 0)) && len(s.p) <= 1<<40
+}
+
+// splAt is the k-th oldest retained packet (abstract view of the ring).
+//
+//@ pure
+func splAt(s *sentPacketList, k int) *sentPacket {
+	idx := s.off + k
+	if idx >= len(s.p) {
+		idx -= len(s.p) // same as (s.off+k) % len(s.p) for 0 <= k < len(s.p), without a division
+	}
+	return s.p[idx]
+}
+
+// lemmaModWrap: below twice the modulus, the remainder is one conditional subtraction.
+//
+//@ lemma
+//@ requires 0 <= a && 0 < n && a < 2*n && n <= 1<<41
+//@ ensures a % n == ite(a >= n, a - n, a)
+func lemmaModWrap(a, n int) {
+}
+
+//@ func (*sentPacketList).start(s) (r)
+//@   requires s != nil
+//@   ensures  r == s.nextNum - packetNumber(s.size)
+//@ func (*sentPacketList).end(s) (r)
+//@   requires s != nil
+//@   ensures  r == s.nextNum
+//@
+//@ func (*sentPacketList).nth(s, n) (r)
+//@   uses lemmaModWrap
+//@   abstractrem
+//@   requires s != nil && splOK(s) && 0 <= n && n < s.size
+//@   ensures  r == splAt(s, n)
+//@
+//@ func (*sentPacketList).num(s, num) (r)
+//@   requires s != nil && splOK(s) && 0 <= s.nextNum && s.nextNum <= 1<<62 && -1 <= num && num <= 1<<62
+//@   ensures  (num < s.nextNum - packetNumber(s.size) || num >= s.nextNum) ==> r == nil
+//@   ensures  (num >= s.nextNum - packetNumber(s.size) && num < s.nextNum) ==> r == splAt(s, int(num - (s.nextNum - packetNumber(s.size))))
+//@
+//@ func (*sentPacketList).grow(s)
+//@   allocates
+//@   requires s != nil && splOK(s) && len(s.p) <= 1<<39
+//@   ensures  splOK(s) && s.size == old(s.size) && s.nextNum == old(s.nextNum) && s.off == 0
+//@   ensures  len(s.p) > old(len(s.p)) && fresh(s.p)
+//@   ensures  forall k int :: 0 <= k && k < s.size ==> splAt(s, k) == old(splAt(s, k))
+//@   loop 1 invariant 0 <= i && i <= s.size && len(p) == newSize && newSize > len(s.p) && newSize <= 1<<40 && fresh(p)
+//@   loop 1 invariant s.size == old(s.size) && s.off == old(s.off) && s.nextNum == old(s.nextNum) && splOK(s)
+//@   loop 1 invariant samebase(s.p, old(s.p)) && suboff(s.p, old(s.p)) == 0 && len(s.p) == len(old(s.p))
+//@   loop 1 invariant forall k int :: 0 <= k && k < i ==> p[k] == old(splAt(s, k))
+//@   loop 1 modifies elems(p)
+//@   loop 1 invariant forall k int :: 0 <= k && k < len(s.p) ==> s.p[k] == old(s.p[k])
+//@   modifies s.p, s.off
+//@
+//@ func (*sentPacketList).add(s, sent)
+//@   allocates
+//@   uses lemmaModWrap
+//@   abstractrem
+//@   cases s.size >= len(s.p)
+//@   requires s != nil && sent != nil && splOK(s) && len(s.p) <= 1<<39 && s.nextNum == sent.num
+//@   ensures  splOK(s) && s.size == old(s.size) + 1 && s.nextNum == old(s.nextNum) + 1
+//@   ensures  splAt(s, old(s.size)) == sent
+//@   ensures  forall k int :: 0 <= k && k < old(s.size) ==> splAt(s, k) == old(splAt(s, k))
+//@   modifies *s, elems(s.p)
+//@
+//@ func (*sentPacketList).discard(s)
+//@   requires s != nil
+//@   ensures  s.size == 0 && s.off == 0 && len(s.p) == 0 && s.nextNum == 0
+//@   modifies *s
